@@ -190,6 +190,33 @@ fn probe(args: &Args) {
             }
         }
     }
+    if which == "q01" {
+        // quality 0/1: per-job buffer of BrotliEncoderMaxCompressedSize(len) too small => truncated part accepted
+        for q in [0, 1] { for lgwin in [10, 12, 16, 18, 22] { for t in [1usize, 2, 3] { for (catable, appendable, magic) in [(false, false, false), (true, false, false), (false, true, true)] {
+            let mut rng = Rng::new(77);
+            let n = 12359 * t;
+            let input = gen_input(&mut rng, n, 0);
+            let p = mk_params(q, lgwin, false, catable, appendable, magic, false);
+            let cap = 2 * n + 10000;
+            let o = run_multi(Spawner::Inline, &p, &input, t, cap, None);
+            let d = if o.class == "ok" { format!("{:?}", decode_ok(&o.bytes, false, &input)) } else { "-".into() };
+            let jobs = recompute_jobs(&p, &input, t);
+            let jf: Vec<String> = jobs.iter().map(|j| format!("{}B/{}{}", j.bytes.as_ref().map(|b| b.len()).unwrap_or(0), BrotliEncoderMaxCompressedSize(j.hi - j.lo), if j.finished { "" } else { " UNFINISHED" })).collect();
+            println!("Q01 q={} lgwin={} t={} catable={} appendable={} magic={} n={} -> class={} len={} decode={} jobs={:?}", q, lgwin, t, catable, appendable, magic, n, o.class, o.bytes.len(), d, jf);
+        } } } }
+    }
+    if which == "lgwin" {
+        // dictionary bound computed from the UNSANITISED lgwin
+        for (lgwin, large, n, t) in [(25, false, 40usize << 20, 2usize), (30, false, 40 << 20, 2), (24, false, 40 << 20, 2)] {
+            let mut rng = Rng::new(78);
+            let input = gen_input(&mut rng, n, 2);
+            let p = mk_params(2, lgwin, false, false, false, false, large);
+            let cap = BrotliEncoderMaxCompressedSizeMulti(n, t);
+            let o = run_multi(Spawner::Threads, &p, &input, t, cap, None);
+            let d = if o.class == "ok" { format!("{:?}", decode_ok(&o.bytes, large, &input)) } else { "-".into() };
+            println!("LGWIN lgwin={} large={} n={} t={} -> class={} {} len={} decode={}", lgwin, large, n, t, o.class, o.msg, o.bytes.len(), d);
+        }
+    }
     if which == "d16grid" {
         // favor on/off over quality x {no truncation, truncation}; counts of differing / wrong outputs
         for q in 0..=11 {
@@ -327,7 +354,7 @@ fn gen_case(rng: &mut Rng, small: bool) -> Case {
             0 => (rng.range(10, 24) as i32, rng.below(t as u64 + 2) as usize),
             1 | 2 | 3 => (rng.range(10, 13) as i32, if q >= 10 { rng.range(3000, 30000) } else { rng.range(20000, 200000) } as usize),
             4 => (rng.range(14, 24) as i32, if q >= 10 { rng.range(3000, 30000) } else { rng.range(20000, 200000) } as usize),
-            5 => (rng.range(16, 22) as i32, if q >= 10 { 5000 } else if rng.chance(1, 4) { (1 << 20) + rng.below(300000) as usize } else { rng.range(200000, 400000) as usize }),
+            5 => (rng.range(16, 22) as i32, if q >= 10 { 5000 } else if q <= 6 && rng.chance(1, 4) { (1 << 20) + rng.below(100000) as usize } else { rng.range(100000, 250000) as usize }),
             _ => (rng.range(10, 24) as i32, rng.range(1, 20000) as usize),
         }
     };
@@ -529,7 +556,7 @@ pub fn run_cmd(args: &Args) {
     });
     for (lines, r) in res { for (a, b) in lines { corr.case(&a, &b); } rep.merge(r); }
     // ---- search
-    let nsearch = if thorough { 6400 } else { 480 };
+    let nsearch = if thorough { 6400 } else { 400 };
     let res = par_tasks(16, move |task| {
         let mut rep = Report::default();
         let mut pool: Pool = brotli::enc::new_work_pool(1 + (task * 7) % 16);
